@@ -802,21 +802,24 @@ fn own_status(code: u32, msg: &str, details: &[u8], trailers_only: bool) -> Vec<
         }
         own.push(("grpc-message", vec![e]));
     }
+    // grpc-status-details-bin is the protocol's on every status path: the status's own details or,
+    // without details, NO header of that name (an empty value list = must be absent) - whatever the
+    // user's metadata or the base map holds under it (F-C04e, fixed by ed827503: strict)
     if !details.is_empty() {
         own.push(("grpc-status-details-bin", vec![b64(details, false)]));
+    } else {
+        own.push(("grpc-status-details-bin", vec![]));
     }
     if trailers_only {
         own.push(("content-type", vec![b"application/grpc".to_vec()]));
     }
     own
 }
-/// premise of c08_md_wire_roundtrip_status: grpc-status-details-bin is tonic's when the status has details
-fn excl_status(details: &[u8]) -> &'static [&'static str] {
-    if details.is_empty() {
-        &[]
-    } else {
-        &["grpc-status-details-bin"]
-    }
+/// premise of c08_md_wire_roundtrip_status: grpc-status-details-bin is tonic's on every status path,
+/// with or without details (since fix ed827503 of F-C04e); what the wire holds under it is judged
+/// through `own_status` (the details, or nothing)
+fn excl_status(_details: &[u8]) -> &'static [&'static str] {
+    &["grpc-status-details-bin"]
 }
 /// request headers as a (possibly padding) peer sends them
 fn gen_peer_request(r: &mut Rng) -> (HeaderMap, RawBin) {
@@ -1081,7 +1084,7 @@ fn case_client_error(out: &mut Out, r: &mut Rng, ops: &[Op], st: (u32, String, V
                 // before the status (C05); the user's entry did arrive on the wire (server.trailers_only)
                 outside = true;
             }
-            let mut why = if outside { None } else { oracle_received(&sent, got.as_ref(), code, &base, &raw) };
+            let mut why = if outside { None } else { oracle_received(&sent, got.as_ref(), code, &details, &base, &raw) };
             if !outside && why.is_none() && n != (after_message as usize) {
                 why = Some(format!("{} messages before the error status", n));
             }
@@ -1395,14 +1398,19 @@ fn received_tr(st: Option<&Status>, probes: &[String]) -> Tr {
 /// what the RECEIVER of an error status sees in status.metadata(): every non-reserved entry the
 /// sender attached (other than grpc-status-details-bin, premise of c08_status_metadata_received)
 /// with the same values in the same order, binary values decode to the original bytes; besides
-/// only what the base header map had (content-type of a trailers-only response)
-fn oracle_received(sent: &HeaderMap, got: Option<&Status>, code: u32, base: &HeaderMap, raw: &RawBin) -> Option<String> {
+/// only what the base header map had (content-type of a trailers-only response).  The DETAILS the
+/// receiver reads are the status's own in every case - also when the sender's metadata (or the base
+/// map) holds an entry named grpc-status-details-bin (F-C04e, fixed by ed827503: strict)
+fn oracle_received(sent: &HeaderMap, got: Option<&Status>, code: u32, details: &[u8], base: &HeaderMap, raw: &RawBin) -> Option<String> {
     let st = match got {
         None => return Some("the receiver finds no status".to_string()),
         Some(s) => s,
     };
     if st.code() as i32 as u32 != code {
         return Some(format!("code {} received as {}", code, st.code() as i32));
+    }
+    if st.details() != details {
+        return Some("the details the receiver reads are not the status's own details".to_string());
     }
     let md = st.metadata();
     let recv = md.clone().into_headers();
@@ -1499,7 +1507,7 @@ fn case_add_header(out: &mut Out, r: &mut Rng, ops: &[Op], st: (u32, String, Vec
                     Some(g) => gen_probes(r, &g.metadata().clone().into_headers(), 2),
                     None => vec![],
                 };
-                (received_tr(got.as_ref(), &rp), oracle_received(&sent, got.as_ref(), code, &base, &raw), rp)
+                (received_tr(got.as_ref(), &rp), oracle_received(&sent, got.as_ref(), code, &details, &base, &raw), rp)
             }
         };
         out.hist("status_received.has_repeated_key", sent.keys().any(|k| sent.get_all(k).iter().count() > 1));
@@ -2259,6 +2267,25 @@ fn main() {
         case_client_error(&mut out, &mut r, &rep, (7, "denied".into(), vec![]), after, streaming, true);
         case_client_error(&mut out, &mut r, &rep, (13, "".into(), vec![1, 2, 3]), after, streaming, true);
         case_client_error(&mut out, &mut r, &forged, (5, "m %".into(), vec![9]), after, streaming, true);
+    }
+    // F-C04e (fixed by ed827503): a status WITHOUT details whose metadata holds an entry named
+    // grpc-status-details-bin - the entry must not reach the wire, the receiver must read no details
+    let own_det = vec![op(1, "x-a", b"1"), op(3, "grpc-status-details-bin", b"user"), op(3, "grpc-status-details-bin", b"\x00\x01"), op(1, "x-b", b"2")];
+    for (after, streaming) in [(false, false), (false, true), (true, true)] {
+        case_client_error(&mut out, &mut r, &own_det, (7, "no".into(), vec![]), after, streaming, true);
+        case_client_error(&mut out, &mut r, &own_det, (7, "".into(), vec![5, 6]), after, streaming, true);
+    }
+    for (reply, streaming) in [(Reply::StreamErr, true), (Reply::Err, false), (Reply::Err, true)] {
+        case_server(&mut out, &mut r, &own_det, reply, streaming, false, (7, "no".into(), vec![]), true);
+    }
+    {
+        let mut stale = HeaderMap::new();
+        stale.append("grpc-status-details-bin", HeaderValue::from_static("c3RhbGU"));
+        stale.append("x-keep", HeaderValue::from_static("k"));
+        case_add_header(&mut out, &mut r, &own_det, (7, "no".into(), vec![]), HeaderMap::new(), true);
+        case_add_header(&mut out, &mut r, &own_det, (7, "no".into(), vec![]), stale.clone(), true);
+        case_add_header(&mut out, &mut r, &[op(1, "x-a", b"1")], (7, "".into(), vec![]), stale.clone(), true);
+        case_add_header(&mut out, &mut r, &own_det, (7, "no".into(), vec![1]), stale, true);
     }
     case_add_header(&mut out, &mut r, &rep, (3, "bad".into(), vec![]), HeaderMap::new(), true);
     let mut base = HeaderMap::new();
